@@ -5,12 +5,19 @@ from meta import COMMON_NOTE
 import brv
 from engine import Spec, Stream
 from monitors import node as mon
+from monitors import mgr as mon_mgr
 
 
 def gen(seed, tier, out):
     n = 400 if tier == "quick" else 8000
     with open(out, "w") as f:
         subprocess.run([str(brv.BIN / "node"), "gen", str(seed), str(n), tier, "c13"], stdout=f, check=True)
+
+
+def gen_mgr(seed, tier, out):
+    n = 160 if tier == "quick" else 3000
+    with open(out, "w") as f:
+        subprocess.run([str(brv.BIN / "mgr"), "gen", str(seed), str(n), tier, "c13"], stdout=f, check=True)
 
 
 def _static(facts):
@@ -26,27 +33,45 @@ def _static(facts):
 SPEC = Spec(
     prop="C13",
     title="A peer can do nothing before it is verified",
-    go_bins=["node"],
-    lean_targets=["BRV.Props.C13", "drv_node"],
+    go_bins=["node", "mgr"],
+    lean_targets=["BRV.Props.C13", "drv_node", "drv_mgr"],
     props_files=[brv.LEAN / "BRV/Props/C13.lean"],
-    streams=[Stream("node", "node", "drv_node", gen, monitor=mon.monitor_c13, nontrivial=mon.nontrivial)],
+    streams=[
+        Stream("node", "node", "drv_node", gen, monitor=mon.monitor_c13, nontrivial=mon.nontrivial),
+        Stream("mgr", "mgr", "drv_mgr", gen_mgr, monitor=mon_mgr.monitor_c13, nontrivial=mon_mgr.nontrivial, timeout=900),
+    ],
     rule="seeded scripts of a scripted peer against a real BitcoinNode (RunWithConn over loopback TCP, worker process): "
          "0-4 probes before the handshake, version/verack in every order with repeats, 0-5 probes while unverified, then a good / "
          "wrong-chain / empty / missing verification reply, then probes again; probes = addr, inv, tx, ext tx, block, ext block, "
          "unknown ext, getaddr, ping, pong, reject, getheaders, protoconf; configs verify-only x tx manager x alternate header handler; "
-         "non-trivial = >= 5 ops incl. a message; distinct = distinct op text",
+         "non-trivial = >= 5 ops incl. a message; distinct = distinct op text. "
+         "Stream `mgr` (request routing): a real NodeManager whose node list (hook VerifAddNode) holds 0-8 real BitcoinNodes, each run over its own net.Pipe connection to a scripted peer; "
+         "per node a stage: fresh / handshake only / verification failed / ready / busy (RequestBlock made directly) / stopped (Stop or peer hang-up, before or after verification), changed in mid-script "
+         "(a ready node stops, a handshake-only node verifies, a busy node's block is delivered, new nodes are appended); announced last headers (chain, sibling, unknown, empty message) so that HasBlock decides; "
+         "routing calls RequestHeaders / RequestTxs (real TxManager fed by AddTxID, 20 ms request timeout) / RequestBlock / SendTx, in bursts that wrap the offset several times, with nobody available, "
+         "with stopped nodes inside the scan, and (9 %) with one node inside the window between Stop() and the end of its run() so that the call meets ErrChannelClosed and retries; hostile bytes on one connection. "
+         "The scripted peers report what they received (the node's own verify / initial getheaders are told apart from a routed one by the locator), the harness reports the manager's scan state (VerifNodes); "
+         "the flags read from the nodes just before a call are inputs of the model's replay, the stages known from what the PEERS sent are what the monitor judges by",
     assumptions=[
         "the handshake goroutine is modelled as consuming the handshake channel eagerly (it does nothing else); the 3 s handshake time-out and the 10 min ping period are not exercised (scripts run in milliseconds)",
         "HeaderRepository / PeerRepository are the interfaces of bitcoin_node.go: spies record every call; the alternate header handler spy replays headers.Repository.HandleHeadersMessage; TxManager is the real one (AddTx observed through GetAndResetTxReceivedCount, AddTxID through the getdata the peer receives)",
         "wire.Cmd* constant -> command string mapping is written in the model (dependency pinned by go.sum) and exercised by the correspondence",
         "RequestBlock / SetBlockHandler / SetTxHandler are only called on nodes returned by NodeManager.nextNode (ready nodes); SetHeaderHandler / SetTxManager / SetVerifyOnly only before Run",
         "effects inside one handler are ordered as in the source; the alternate header handler thread is reported as one effect at the start of its message",
+        "mgr stream: a routing call runs under the manager's mutex with every node at rest (the harness waits for each stage change to complete), so the flags read just before the call are the flags the call sees; "
+        "the one exception is made on purpose (the closing window: the harness holds the node's mutex until the call is parked in IsBusy, found by a goroutine dump) and only when another node is available behind the closing one, "
+        "because otherwise RequestHeaders / RequestTxs spin until the node's run() clears isReady (model outcome Err.spin) and the number of rounds is a race",
+        "mgr stream: ErrBusy from a node that nextNode just selected needs a RequestBlock made by another goroutine between IsBusy and the request; that race is not reproduced (the branch is in the model); "
+        "GetLocatorHashes of the spy repository never fails; RequestTxs always fits one getdata; NodeManager.Clean / Find / Scan are not run (nodes enter through VerifAddNode)",
+        "mgr stream: TxManager entries are left to ripen (request timeout + margin) before every RequestTxs; an AddTxID sequence or a retrying RequestTxs that took longer than the timeout marks the script doubtful and it is run again (at most 5 times)",
     ],
     modelled_funcs=["NewBitcoinNode", "BitcoinNode.accept", "BitcoinNode.handshake", "BitcoinNode.sendVerifyInitiation",
                     "BitcoinNode.handleMessage", "BitcoinNode.handleVersion", "BitcoinNode.handleVerack",
                     "BitcoinNode.handleHeadersVerify", "BitcoinNode.handleHeadersTrack", "BitcoinNode.handleExtended",
                     "BitcoinNode.handleAddress", "BitcoinNode.handleGetAddresses", "BitcoinNode.handleInventory",
-                    "BitcoinNode.handleTx", "BitcoinNode.handleBlock", "NodeManager.nextNode"],
+                    "BitcoinNode.handleTx", "BitcoinNode.handleBlock", "NodeManager.nextNode",
+                    "NodeManager.RequestHeaders", "NodeManager.RequestTxs", "NodeManager.RequestBlock", "NodeManager.SendTx", "BitcoinNode.HasBlock",
+                    "BitcoinNode.RequestHeaders", "BitcoinNode.RequestTxs", "BitcoinNode.RequestBlock"],
     static_checks=_static,
 )
 
@@ -58,5 +83,6 @@ META = dict(
          "ready nodes; (5) on a verify-only node the verifying step is a closed outcome with Stop. The model is tied to the code by differential runs of a scripted peer (0 divergences required) and a "
          "monitor that evaluates the property on the spies' records.",
     note=COMMON_NOTE + "Found and fixed during construction: handleHeadersVerify teed the verification reply into the alternate header handler before VerifyHeader (headers of a wrong-chain peer reached ProcessHeader); "
-         "regression script corpus/C13/node-header-handler-before-verify.ops. Clock-driven paths (3 s handshake time-out) are not modelled. nextNode is proved on a model of its scan loop (flags only), not run against NodeManager.",
+         "regression script corpus/C13/node-header-handler-before-verify.ops. Clock-driven paths (3 s handshake time-out) are not modelled. The routing model (Model/Mgr.lean) is run against a real NodeManager with several live nodes by the `mgr` stream; "
+         "not reproduced there: ErrBusy after selection (needs a racing direct request), a retry that comes back to the closing node, NodeManager.Clean (offset beyond the list: in the model and theorems only).",
 )
